@@ -26,6 +26,9 @@ class Head(packet.Packet):
 
     def post_dissection(self, pkt):
         ''' Verify that the version-specific part is present. '''
+        # Keep octets after the header as future data
+        formats.remove_padding(self)
+
         if not self.payload:
             raise formats.VerifyError('Contact header without payload')
         packet.Packet.post_dissection(self, pkt)
